@@ -4,6 +4,7 @@ CONSTANTS
   VLen <- MCVLen
   Digits = {0, 1, 2}
   Vals = {1, 2}
+  EmptyProofAsCoded = TRUE
   Limit = 2
 INVARIANTS TypeOK Canonical RootCanonical CacheCoherent FlagsOK Resolvable NormalForm GetOK ProofOK TamperOK IterOK
 PROPERTIES Stable
